@@ -92,17 +92,23 @@ func (s *sessions) update(h Header, n Handler) {
 func (s *sessions) delete(session SessionID) {
 	s.Lock()
 	defer s.Unlock()
-	sessionsActive.Dec()
-	if sc := s.known[session]; sc != nil {
-		sc.timer.ObserveDuration()
+	// only a registered session counts as active
+	if sc, ok := s.known[session]; ok {
+		sessionsActive.Dec()
+		if sc != nil {
+			sc.timer.ObserveDuration()
+		}
 	}
 	delete(s.known, session)
 }
 
-// close will stop all prom timers, it's the only reason we have this
+// close will stop all prom timers and account for the sessions that are still
+// open when the connection goes away
 func (s *sessions) close() {
-	for _, r := range s.known {
+	for id, r := range s.known {
 		r.timer.ObserveDuration()
+		sessionsActive.Dec()
+		delete(s.known, id)
 	}
 }
 
